@@ -111,7 +111,10 @@ def o7_8_compact_range(mir, tier):
 def o7_8_confirm(v, out):
     """Native: VersionSet::compact_range on a version set holding the model's files (max_file_size 64); the level-L inputs are
     compared with the reference computed from the concrete files."""
-    if out.get('_rc') != 0: return (False, 'native run failed: %s' % out.get('_stderr', '')[-300:])
+    if out.get('_rc') != 0:
+        # setting up the compaction panics (e.g. the assertion that a compaction has inputs): on the background thread this kills the worker
+        if 'panicked' in out.get('_stderr', ''): return (True, 'native: VersionSet::compact_range panics for this layout: %s' % out.get('_stderr', '').split('panicked')[1][:200].replace('\n', ' '))
+        return (False, 'native run failed: %s' % out.get('_stderr', '')[-300:])
     a = v['replay']; level = int(a[1]); lv = _parse_levels(a[4:])
     b = None if a[2] == 'none' else int(a[2].split(':')[0], 16); e = None if a[3] == 'none' else int(a[3].split(':')[0], 16)
     files = lv.get(level, [])
